@@ -145,6 +145,19 @@ func sharedValue(g *vmodel.Gen, idx int) vocab.Item {
 	k := vmodel.Kinds[idx%len(vmodel.Kinds)]
 	g.PSet = []float64{0.2, 0.45, 0.8}[idx%3]
 	p := g.Struct(k, 1+idx%2, true)
+	if idx%5 == 0 {
+		// members that have nothing to say (nil, typed nil) in the middle of the lists: an encoder that filters in place shows here
+		v := reflect.ValueOf(p).Elem()
+		for i := 0; i < v.NumField(); i++ {
+			if v.Field(i).Type() == vmodel.IcT && v.Field(i).Len() >= 1 {
+				old := v.Field(i).Interface().(vocab.ItemCollection)
+				nl := make(vocab.ItemCollection, 0, len(old)+4)
+				nl = append(nl, old[0], nil, (*vocab.Object)(nil))
+				nl = append(nl, old[1:]...)
+				v.Field(i).Set(reflect.ValueOf(nl))
+			}
+		}
+	}
 	switch idx % 9 {
 	case 7:
 		return reflect.ValueOf(p).Elem().Interface().(vocab.Item) // value form
